@@ -1777,7 +1777,14 @@ def step_wiring(chk):
         iv = lp.target.id
         ci = [n for n in ast.walk(lp) if isinstance(n, ast.Call) and isinstance(n.func, ast.Attribute) and n.func.attr == "compute_interpolant"]
         in_loop = any(n is c2 for n in ast.walk(lp))
-        pos = lambda n: (n.lineno, n.col_offset)
+        # ASSUMPTION of the order verdicts: the order of EXECUTION of two calls.  It is read from the statement lists (C05.exec_order),
+        # never from line numbers: the statements of a helper written back in place all carry the position of the call they replace
+        from .C05 import exec_order
+
+        def before(x, y):
+            """True / False / None: x is executed before y (x an unconditional statement, or an expression statement, of the list)"""
+            v_, sx, sy = exec_order(fn, x, y)
+            return v_
         rc_ = reader_call_model(chk)
         f_formal = next((k_ for k_, v_ in (rc_ or {}).get("role", {}).items() if v_ == "f"), None)
         if in_loop and f_formal is not None and len(ci) == 1 and ci[0].args and isinstance(ci[0].args[0], ast.Subscript) \
@@ -1793,14 +1800,14 @@ def step_wiring(chk):
             # call depends on the column counter at all
             i_ok = any(isinstance(x_, ast.Name) and x_.id == iv for x_ in ast.walk(c1r))
             it_ = resolved(lp.iter, defs)
-            if same_expr(it_, "range(self._nPoints[1])") and same_expr(col, f"f[:, {iv}]") and pos(ci[0]) < pos(c1) and i_ok \
-                    and pos(lp) < pos(c2):
+            if same_expr(it_, "range(self._nPoints[1])") and same_expr(col, f"f[:, {iv}]") and before(ci[0], c1) is True and i_ok \
+                    and before(lp, c2) is True:
                 okl = True
             elif same_expr(it_, "range(self._nPoints[0])") and same_expr(col, f"f[:, {iv}]"):
                 badl = "the loop runs over the number of theta points, not over the n_z columns of the slice: columns are missed or out of range"
             elif same_expr(col, f"f[{iv}, :]") or same_expr(col, f"f[{iv}]"):
                 badl = f"`{src(col)}` interpolates a row of the slice (fixed theta, along z) with the theta spline, not the z column {iv} along theta"
-            elif pos(ci[0]) > pos(c1) and same_expr(col, f"f[:, {iv}]"):
+            elif before(ci[0], c1) is False and same_expr(col, f"f[:, {iv}]"):
                 badl = "the table row of column i is produced before the spline of column i is computed: it holds the previous column's values"
         elif not ci and not [n for n in ast.walk(lp) if isinstance(n, ast.Call) and n is not c1 and not any(n is x for x in ast.walk(c1))
                              and not (isinstance(n.func, ast.Name) and n.func.id in ("range", "len", "enumerate"))]:
@@ -1811,10 +1818,14 @@ def step_wiring(chk):
             "every z column is interpolated along theta and entered into the table before the weighted sum overwrites f", badl,
             file=U.ADV, func=f"{CLS}.step")
     # precomputed tables are not modified by the step
-    muts = [m for m in lints.shared_state_mutations(fn, lambda s: s.startswith("self._") and s.split("[")[0] in
-                                                    ("self._shifts", "self._thetaShifts", "self._lagrangeCoeffs"))]
+    muts = lints.shared_state_mutations(fn, lambda s: s.startswith("self._") and s.split("[")[0] in
+                                        ("self._shifts", "self._thetaShifts", "self._lagrangeCoeffs"))
     chk.ob("G2-no-shared-mutation", fn, "step vs precomputed tables", not muts,
            "the per-(r,v) tables are only read" if not muts else "; ".join(d for _, d in muts), file=U.ADV, func=f"{CLS}.step")
+    # possible writes the engine could not establish (alias liveness, view/copy of the value not known): undecided, same rule
+    for node, desc, why in getattr(muts, "undecided", ()):
+        chk.ob("G2-no-shared-mutation", node, "step vs precomputed tables", None, f"{desc} - not established: {why}",
+               file=U.ADV, func=f"{CLS}.step")
 
 
 def run(chk):
